@@ -84,6 +84,8 @@ def saveload_case(args):
             # order-1 channels only: for order-0 channels the layer hands eps to eqx.nn.GroupNorm, where it is a STATIC field, so
             # twins with different eps would not be same-structured there
             return ml.GroupNorm(geom.Signature((((1, 0), 2), ((1, 1), 1))), D, 1, eps=(0.05 if saved else 1e-5))
+        if kind == "GroupNormGroups":
+            return ml.GroupNorm(geom.Signature((((1, 0), 2), ((1, 1), 2))), D, (2 if saved else 1))
         if kind == "ModelWrapper":
             cnn = eqx.nn.Conv(D, 4, 3, 3, padding=1, key=key)
             return models.ModelWrapper(D, cnn, out_k, True)
@@ -99,6 +101,9 @@ def saveload_case(args):
     pert = [l + 0.25 * jr.normal(jr.PRNGKey(100 + i), l.shape, l.dtype) if jnp.issubdtype(l.dtype, jnp.floating) else l
             for i, l in enumerate(leaves)]
     m1 = eqx.combine(jax.tree_util.tree_unflatten(tree, pert), eqx.filter(m1, eqx.is_array, inverse=True))
+    kindof = lambda v: "array" if hasattr(v, "shape") else {bool: "bool", int: "int", float: "float"}.get(type(v), "opaque")
+    diffkinds = sorted({kindof(a) for a, b in zip(jax.tree_util.tree_leaves(m1), jax.tree_util.tree_leaves(m2))
+                        if (not np.array_equal(np.asarray(a), np.asarray(b)) if hasattr(a, "shape") else a != b)})
     path = os.path.join(tlc.WORK, "model_%d_%d.eqx" % (os.getpid(), idx))
     os.makedirs(tlc.WORK, exist_ok=True)
     fails = []
@@ -113,9 +118,11 @@ def saveload_case(args):
         if [(type(v), v) for v in scal(m1)] != [(type(v), v) for v in scal(m3)]:
             fails.append({"key": {"what": "save/load: scalar (non-array) leaves of the saved model are not restored", "model": kind}})
         x = geom.MultiImage({(0, 0): jr.normal(jr.PRNGKey(5), (2, 4, 4)), (1, 0): jr.normal(jr.PRNGKey(6), (1, 4, 4, 2))}, D, True)
+        if kind == "GroupNormGroups":
+            x = geom.MultiImage({(1, 0): jr.normal(jr.PRNGKey(5), (2, 4, 4, 2)), (1, 1): jr.normal(jr.PRNGKey(6), (2, 4, 4, 2))}, D, True)
         if kind == "GroupNormEps":
             x = geom.MultiImage({(1, 0): jr.normal(jr.PRNGKey(5), (2, 4, 4, 2)), (1, 1): jr.normal(jr.PRNGKey(6), (1, 4, 4, 2))}, D, True)
-        call = (lambda m: m(x)) if kind in ("ConvContract", "GroupNormEps") else (lambda m: m(x)[0])
+        call = (lambda m: m(x)) if kind in ("ConvContract", "GroupNormEps", "GroupNormGroups") else (lambda m: m(x)[0])
         y1, y3 = call(m1), call(m3)
         if list(y1.keys()) != list(y3.keys()) or any(not np.array_equal(np.asarray(y1[k]), np.asarray(y3[k])) for k in y1.keys()):
             fails.append({"key": {"what": "save/load: outputs differ after loading", "model": kind}})
@@ -129,7 +136,7 @@ def saveload_case(args):
     finally:
         if os.path.exists(path):
             os.remove(path)
-    return fails
+    return fails, diffkinds
 
 
 def main(tier):
@@ -171,11 +178,24 @@ def main(tier):
                     "final": {k: h[-1]["after"][k] for k in ("order", "leads")}} for h in behaviours[500:502]]
     # ---- model serialisation -------------------------------------------------------------------------
     kinds = ["ConvContract", "ConvBlock", "ResNet", "ResNetPlain", "GroupAverageInference", "GroupAverageAlways", "GroupAverageOff",
-             "GroupNormEps", "ModelWrapper"] + (["UNet", "DilResNet"] if tier == "thorough" else [])
-    for fails in core.pmap(saveload_case, [(i, k, core.SEED + 31 * i) for i, k in enumerate(kinds)], procs=6, crash_value=[]):
+             "GroupNormEps", "GroupNormGroups", "ModelWrapper"] + (["UNet", "DilResNet"] if tier == "thorough" else [])
+    # Serialise.tla: Load(Save(m), t) = m for every same-structured template t; it also names the kinds of leaves in which a template
+    # may differ from the saved model -- each of them must be exercised by a real save/load below (vacuity guard)
+    sconst = dict(MaxLeaves=2, Vals={0, 1})
+    rs = tlc.run("Serialise.tla", tlc.make_cfg(constants=sconst, invariants=["Laws"]), constants=sconst, workers=4, timeout=900)
+    chk.add_tlc(rs)
+    if not rs.ok:
+        chk.spec_violation(rs, "Serialise.tla: round-trip law")
+    need = {k for pat in rs.cases[0]["patterns"] for k in pat}
+    seen = set()
+    for fails, diffkinds in core.pmap(saveload_case, [(i, k, core.SEED + 31 * i) for i, k in enumerate(kinds)], procs=6, crash_value=([], [])):
         chk.evaluations += 1
+        chk.traces += 1
+        seen |= set(diffkinds)
         for f in fails:
             chk.report(f["key"], payload=f)
+    if not need <= seen:
+        raise RuntimeError("vacuity: no saved model / template pair differs in leaves of kind %s" % sorted(need - seen))
     chk.extra["saveload_models"] = kinds
     chk.assumptions = ["TLC/SANY/Json trusted", "float32 exact on token values", "chains of bounded depth over the listed base signatures"]
     return chk.finish()
